@@ -20,12 +20,14 @@ Inductive event :=
 | ERecordSat (scanned est : Z) (dets : list (Z * answer))
 | ERebuild (id tip : Z) (grid_ok crypto_ok external : bool) (sched anchor txid : Z)
 | EStatuses (scanned est : Z)
+| EWalletRewind (requested achieved : Z)   (* the SQLite wallet's own truncate_to_height / rewind_to_chain_state *)
 | ECancel | ESupersede | ERecompute.
 
 Inductive output :=
 | OUnit | OBool (b : bool) | OStep (st : step) (persisted : bool) (next : option (Z * skind)) | ORebuild (r : rebuild_res)
 | OStatuses (l : list txstatus) (expired : list Z)
 | OMemDisagree   (* the in-memory backend did not agree with the scripted store on an advance call *)
+| ORewindFailed  (* the wallet's truncation / rewind returned an error *)
 | OPanic.
 (** persistence stream: the verdicts of the load-back ([latest_migration] / [get_migration] equal
     to what was written, at most one live migration, the in-memory backend of
@@ -188,6 +190,7 @@ Definition model_event (s : mstate) (ev : event) : option (mstate * output) :=
     else let '(s', r) := rebuild s id target grid_ok crypto_ok external delay anchor txid in Some (s', ORebuild r)
   | EStatuses sc est =>
     Some (s, OStatuses (transaction_statuses s (mk_targets sc est)) (expired_transactions s (mk_targets sc est)))
+  | EWalletRewind _ achieved => Some (truncate_to_height s achieved, OUnit)
   | ECancel => Some (mark_cancelled s, OUnit)
   | ESupersede => Some (mark_superseded s, OUnit)
   | ERecompute => Some (recompute_status s, OUnit)
@@ -241,15 +244,38 @@ Fixpoint forall2b' {A B} (f : A -> B -> bool) (x : list A) (y : list B) : bool :
 Definition statuses_ok_b (s : mstate) (tg : targets) (l : list txstatus) : bool :=
   forall2b' (status_row_ok s tg) (m_txs s) l.
 
+(** mark soundness of one step: a mark that appears in this step is backed by evidence.
+    A new [Inherited] mark needs a direct dependency that — in the state the step RETURNS — is an
+    unmined row that is itself marked or expired at the scanned target (a dead source; a source the
+    same call promoted to [Mined] is not one).  A new directly observed mark needs the oracle's
+    own answer for that row: the same height and the same kind. *)
+Definition src_dead_b (txs : list mtx) (scanned : Z) (d : Z) : bool :=
+  match find_tx d txs with
+  | Some x => sp_unmined x && (is_some (t_unsat x) || sp_expired x scanned)
+  | None => false
+  end.
+Definition answer_backs (a : answer) (h : Z) (k : ukind) : bool :=
+  match a with
+  | Unsat c h' => (h' =? h) && option_eqb ukind_eqb (cause_kind c) (Some k)
+  | _ => false
+  end.
+Definition new_marks_sound_b (oracle : Z -> list answer) (scanned : Z) (pre post : list mtx) : bool :=
+  forall2b (fun a b =>
+    match t_unsat a, t_unsat b with
+    | None, Some (_, KInherited) => existsb (src_dead_b post scanned) (t_deps b)
+    | None, Some (h, k) => existsb (fun an => answer_backs an h k) (oracle (t_id b))
+    | _, _ => true
+    end) pre post.
+
 Definition prop_event (pre : mstate) (ev : event) (post : mstate) (out : output) : bool :=
   (* lifecycle: forward only, a rollback un-mines exactly the rows mined above its height *)
   (match ev with
-   | ERollback h => rollback_exact_b h (m_txs pre) (m_txs post)
+   | ERollback h | EWalletRewind _ h => rollback_exact_b h (m_txs pre) (m_txs post)
    | ERebuild id tip _ _ _ _ _ _ => rebuild_exact_b id (sat_add tip 1) (m_txs pre) (m_txs post)
    | _ => monotone_b (m_txs pre) (m_txs post)
    end)
   (* terminal statuses are never left *)
-  && terminal_sticky_b (match ev with ERollback _ => true | _ => false end) pre post
+  && terminal_sticky_b (match ev with ERollback _ | EWalletRewind _ _ => true | _ => false end) pre post
   (* what the drive API offers *)
   && (match ev, out with
       | EAdvance sc est answers dflt _ _, OStep st _ _ =>
@@ -259,12 +285,28 @@ Definition prop_event (pre : mstate) (ev : event) (post : mstate) (out : output)
       | EAdvance _ _ _ _ _ _, _ => false
       | EStatuses sc est, OStatuses l _ => statuses_ok_b pre (mk_targets sc est) l
       | EStatuses _ _, _ => false
+      | EWalletRewind req achieved, OUnit => true
+      | EWalletRewind _ _, _ => false
       | _, _ => true
       end).
 
+(** mark soundness of the steps that record marks (checked on the implementation's outcome; the
+    [Inherited] half is proved of the model for every store in ProofsMarks.v, the bridge theorem
+    covers [prop_event]) *)
+Definition prop_marks (pre : mstate) (ev : event) (post : mstate) : bool :=
+  match ev with
+  | EAdvance sc est answers dflt _ _ =>
+    new_marks_sound_b (fun id => [match lookup id answers with Some a => a | None => dflt end])
+                      (tg_scanned (mk_targets sc est)) (m_txs pre) (m_txs post)
+  | ERecordSat sc est dets =>
+    new_marks_sound_b (fun id => map snd (filter (fun p => fst p =? id) dets))
+                      (tg_scanned (mk_targets sc est)) (m_txs pre) (m_txs post)
+  | _ => true
+  end.
+
 Definition prop_case (c : case) : bool :=
   let '(Case pre ev post out p) := c in
-  prop_event pre ev post out
+  prop_event pre ev post out && prop_marks pre ev post
   && match p with PNone => true | PFull a b c m _ _ _ => a && b && c && m end.
 
 (** Classes of the two recordings that used to demote a row (1: a broadcast recorded on a row
@@ -307,6 +349,9 @@ Definition tag_case (c : case) : N :=
     match e with RMismatch => 67 | RUnknown => 68 | RNotTransfer => 69 | RUnsatisfiable => 70 | RNotExpired => 71 end
   | ERebuild _ _ _ _ _ _ _ _, _ => 72
   | EStatuses _ _, _ => 73
+  | EWalletRewind req achieved, _ =>
+    (if Z.eqb req achieved then 74 else 75)
+    + (if list_eqb txstate_eqb (map t_state (m_txs pre)) (map t_state (m_txs post)) then 0 else 2)
   | ECancel, _ => 62
   | ESupersede, _ => 63
   | ERecompute, _ => 64
